@@ -259,7 +259,20 @@ def build(ctx):
     ctx.attempt("element.cov_radii/ensures/rows", ob_vec)
 
     ground_spellings(ctx)
+    engine_guard(ctx, I, f_num, f_str, f_lab)
     bounded_formula(ctx)
+
+
+def engine_guard(ctx, I, f_num, f_str, f_lab):
+    """CPython cross-check of the symbolic executor on the functions under contract (concrete arguments, one path, same value / exception type)."""
+    from pyvc.crosscheck import crosscheck
+    el = _el()
+    fields = ["atomic_number", "name", "symbol", "cov", "vdw", "mass"]
+    crosscheck(ctx, I, f_num, el.Element.from_atomic_number, [(k,) for k in (1, 2, 6, 17, 53, 79, 103, 0, -1, 104, -103, -104, 250)], fields=fields)
+    crosscheck(ctx, I, f_str, el.Element.from_string, [(s_,) for s_ in ("H", "he", "CL", " c ", "carbon", "Iron", "D", "Xx", "", "C1", "na2", "17", "cl_a")], fields=fields)
+    crosscheck(ctx, I, f_lab, el.Element.from_label, [(s_,) for s_ in ("C1", "Cl1", "H12A", "ca", "O", "N3_$1", "1C", "", "Zz9")], fields=fields)
+    crosscheck(ctx, I, ctx.fn(MOD, "chemical_formula"), el.chemical_formula,
+               [(["C", "H", "H", "O"],), (["Na", "Cl"],), (["H"] * 12 + ["C"] * 6,), ([],), (["O", "O", "Fe", "Fe", "Fe"],)])
 
 
 def ground_spellings(ctx):
